@@ -165,6 +165,29 @@ PROPS = {
         level_text='Contract of the CALL arm against a recording helper, for all ids, arguments and depths.',
         assumptions=['JIT and Cranelift call sites: units jit / cranelift'],
     ),
+    'C13': dict(
+        title='The assembler emits exactly the encoding each mnemonic and operand list denotes',
+        parts=[
+            Part('asm', lambda h: h.startswith(('insn_contract', 'encode_contract', 'assemble_internal_contract', 'bounded_')),
+                 lambda h, c, info=None: 'ensures:' in desc(c) or (in_file(c, 'src/assembler.rs') and kani.is_panic_check(c)),
+                 'insn: Ok <=> operands in range, fields as written; encode: == documented operand shape for every (class, opcode, operand list), every other shape is an error; assemble_internal: one slot per instruction, two for lddw (high half in the second), first error aborts with no output'),
+            Part('asmtable', lambda h: True, lambda h, c, info=None: True,
+                 'mnemonic table (make_instruction_map is a closed term): every documented mnemonic assembles to its opcode/shape, malformed lines are rejected - exhaustive native evaluation through assemble()'),
+            Part('codec', lambda h: h in ('to_array_is_reference_encoding',), real_or_harness, 'Insn::to_array (C17)'),
+        ],
+        level_text='Everything after the combinator grammar is proved (Kani, all operand values, one harness per operand count); the mnemonic table is evaluated exhaustively; text -> Instruction (combine grammar) is trusted.',
+        assumptions=[],
+    ),
+    'C14': dict(
+        title='The assembler is total',
+        parts=[
+            Part('asm', lambda h: True,
+                 lambda h, c, info=None: (in_file(c, 'src/assembler.rs') or in_file(c, 'result.rs') or in_file(c, 'option.rs')) and (kani.is_panic_check(c) or 'placeholder message' in desc(c) or c.get('category') == 'assertion' and 'ensures' not in desc(c)),
+                 'no panic in insn / operands_tuple / encode / assemble_internal for every Instruction value, nor in the closure bodies of integer() and register() whatever std\'s parsers answer (an unwrap on their Err is a failed obligation)'),
+        ],
+        level_text='Proof of the rbpf-authored code of the assembler (Kani); combine\'s grammar machinery and std\'s integer parsers are assumed total; termination ("bounded time") is not verified by Kani.',
+        assumptions=['combine is panic-free and terminating (trusted)', 'termination is not verified'],
+    ),
     'C15': dict(
         title='Disassembly reports every instruction\'s true fields and never panics',
         parts=[
